@@ -17,13 +17,22 @@ func SelfTest(c *core.Ctx) int {
 		fmt.Println("INCONCLUSIVE:", err)
 		return core.ExitInconclusive
 	}
+	// evenly spaced sample of every (kind, family)
 	var sample []*Case
-	per := map[string]int{}
+	groups := map[string][]*Case{}
+	var keys []string
 	for _, cs := range g.Cases {
 		key := cs.K + cs.Fam
-		if per[key] < 150 {
-			per[key]++
-			sample = append(sample, cs)
+		if groups[key] == nil {
+			keys = append(keys, key)
+		}
+		groups[key] = append(groups[key], cs)
+	}
+	for _, key := range keys {
+		grp := groups[key]
+		step := len(grp)/300 + 1
+		for i := 0; i < len(grp); i += step {
+			sample = append(sample, grp[i])
 		}
 	}
 	r := NewRnd(c.Seed)
